@@ -139,7 +139,8 @@ fn gen(rng: &mut Rng) -> Opts {
   if rng.chance(1, 3) {
     o.name = pick(rng, &["renamed", "n m", "ü", "a&b", "Artist/Album", "x/", " padded ", "4:info", "name.with.dots"]);
   }
-  o.p = *rng.pick(&[1u64, 7, 64, 1000, 16384, 32768, 1 << 20]);
+  // (also lengths above the largest the automatic choice ever makes: what is asked for is what is written)
+  o.p = *rng.pick(&[1u64, 7, 64, 1000, 16384, 32768, 1 << 20, 1 << 25, 20_000_000, 1 << 26]);
   o.private = rng.chance(1, 3);
   o.md5 = rng.chance(1, 2);
   o.no_created_by = rng.chance(1, 2);
